@@ -119,8 +119,10 @@ type Chain struct {
 	LastTxHash   []byte // what the host application supplied to the message in progress
 	LastMsgIndex int64
 
-	cbs     []Callback // callbacks of the step in progress
-	ModSvcs map[string]string
+	cbs       []Callback // callbacks of the step in progress
+	ModSvcs   map[string]string
+	HasModSvc bool // the test module service is registered
+	Prepared  bool // the zero-height preparation has run on this chain
 
 	// sub-step observer for EndBlocker (set by the driver)
 	OnSub func(stage string, id int)
@@ -205,6 +207,13 @@ func NewChain(p MParams, names []string, bal map[string]int64) *Chain {
 		a := app.AccountKeeper.GetModuleAddress(mod)
 		c.Addr[n] = a
 		c.NameOf[string(a)] = n
+		if bal[n] > 0 { // a restarted chain: the module accounts' holdings are carried over
+			if _, err := app.BankKeeper.AddCoins(c.Ctx, a, sdk.NewCoins(sdk.NewCoin(Denom, sdk.NewInt(bal[n])))); err != nil {
+				panic(err)
+			}
+			sup := app.BankKeeper.GetSupply(c.Ctx).GetTotal()
+			app.BankKeeper.SetSupply(c.Ctx, banktypes.NewSupply(sup.Add(sdk.NewCoin(Denom, sdk.NewInt(bal[n])))))
+		}
 	}
 
 	// the test module that owns module contexts: recording callbacks
@@ -226,6 +235,7 @@ func NewChain(p MParams, names []string, bal map[string]int64) *Chain {
 // RegisterTestModuleService registers a module service (finding D9; the repository's own
 // application registers none): service "msvc", provided by account p3
 func (c *Chain) RegisterTestModuleService() {
+	c.HasModSvc = true
 	_ = c.K.RegisterModuleService("vsvcmod", &types.ModuleService{
 		ServiceName: "msvc", Provider: c.A("p3"),
 		ReuquestService: func(ctx sdk.Context, input string) (string, string) {
